@@ -10,9 +10,9 @@ use lc3_ensemble::sim::{InternalRegister, MemAccessCtx, SimFlags, Simulator};
 use std::sync::{Arc, Mutex, OnceLock};
 
 #[derive(Clone, Copy, Debug)]
-enum Op { Load, Step, Run3, ToggleStrict, ToggleReal, ToggleIgnore, ToggleFrames, BpInsertPc, BpInsertReg, BpRemovePc, AddDev, RemoveDev3, SetKb, SetDisp, MmapPc, MunmapPc, WriteReg, WriteMem, WritePsr, TypeKey, Reset, MunmapPsr, MunmapMcr, SetInit, Deep }
-const OPS: [Op; 25] = [Op::Load, Op::Step, Op::Run3, Op::ToggleStrict, Op::ToggleReal, Op::ToggleIgnore, Op::ToggleFrames, Op::BpInsertPc, Op::BpInsertReg, Op::BpRemovePc,
-    Op::AddDev, Op::RemoveDev3, Op::SetKb, Op::SetDisp, Op::MmapPc, Op::MunmapPc, Op::WriteReg, Op::WriteMem, Op::WritePsr, Op::TypeKey, Op::Reset, Op::MunmapPsr, Op::MunmapMcr, Op::SetInit, Op::Deep];
+enum Op { Load, Step, Run3, ToggleStrict, ToggleReal, ToggleIgnore, ToggleFrames, BpInsertPc, BpInsertReg, BpRemovePc, AddDev, RemoveDev3, SetKb, SetDisp, MmapPc, MunmapPc, WriteReg, WriteMem, WritePsr, TypeKey, Reset, MunmapPsr, MunmapMcr, SetInit, Deep, MmapOverDev }
+const OPS: [Op; 26] = [Op::Load, Op::Step, Op::Run3, Op::ToggleStrict, Op::ToggleReal, Op::ToggleIgnore, Op::ToggleFrames, Op::BpInsertPc, Op::BpInsertReg, Op::BpRemovePc,
+    Op::AddDev, Op::RemoveDev3, Op::SetKb, Op::SetDisp, Op::MmapPc, Op::MunmapPc, Op::WriteReg, Op::WriteMem, Op::WritePsr, Op::TypeKey, Op::Reset, Op::MunmapPsr, Op::MunmapMcr, Op::SetInit, Op::Deep, Op::MmapOverDev];
 
 fn program() -> &'static ObjectFile {
     static P: OnceLock<ObjectFile> = OnceLock::new();
@@ -26,14 +26,14 @@ impl ExternalDevice for Rec {
     fn io_reset(&mut self) {}
     fn poll_interrupt(&mut self) -> Option<Interrupt> { None }
 }
-struct World { sim: Simulator, kb: Option<BufferedKeyboard>, rec_log: Arc<Mutex<Vec<(bool, u16)>>>, rec_attached: bool, pc_mapped: bool, psr_mapped: bool, mcr_mapped: bool, init: MachineInitStrategy, mcr: Arc<std::sync::atomic::AtomicBool>, touched: Vec<u16> }
+struct World { sim: Simulator, kb: Option<BufferedKeyboard>, rec_log: Arc<Mutex<Vec<(bool, u16)>>>, rec_attached: bool, pc_mapped: bool, /** the PC register is also mapped at xFE20, the recording device's port (the register shadows the device) */ over_mapped: bool, psr_mapped: bool, mcr_mapped: bool, init: MachineInitStrategy, mcr: Arc<std::sync::atomic::AtomicBool>, touched: Vec<u16> }
 const SSP_PORT: u16 = 0xFE30;
 
 fn fresh(init: MachineInitStrategy) -> World {
     let mut sim = Simulator::new(SimFlags { machine_init: init, ..Default::default() });
     sim.mmap_internal(SSP_PORT, InternalRegister::SavedSP).unwrap();
     let mcr = sim.mcr().clone();
-    World { sim, kb: None, rec_log: Default::default(), rec_attached: false, pc_mapped: false, psr_mapped: true, mcr_mapped: true, init, mcr, touched: vec![] }
+    World { sim, kb: None, rec_log: Default::default(), rec_attached: false, pc_mapped: false, over_mapped: false, psr_mapped: true, mcr_mapped: true, init, mcr, touched: vec![] }
 }
 fn apply(w: &mut World, op: Op) -> Result<(), (String, String)> {
     match op {
@@ -63,6 +63,7 @@ fn apply(w: &mut World, op: Op) -> Result<(), (String, String)> {
         Op::SetInit => { let alt = MachineInitStrategy::Known { value: 0x2468 }; w.sim.flags.machine_init = if w.sim.flags.machine_init == alt { w.init } else { alt }; }
         // scale: 300 nested calls that have not returned (a JSR-to-next sled at x6000), left live
         Op::Deep => { for a in 0x6000..0x6200u16 { w.sim.mem[a].set(0x4800); } w.touched.extend(0x6000..0x6200); w.sim.pc = 0x6000; let _ = w.sim.run_with_limit(300); }
+        Op::MmapOverDev => { if w.sim.mmap_internal(0xFE20, InternalRegister::PC).is_ok() { w.over_mapped = true; } }
         Op::Reset => return reset_and_check(w),
     }
     Ok(())
@@ -110,6 +111,8 @@ fn reset_and_check(w: &mut World) -> Result<(), (String, String)> {
         let _ = w.sim.write_mem(0xFFFE, Word::new_init(0x8000), MemAccessCtx { privileged: true, strict: false, io_effects: true, track_access: false });
         if w.sim.mcr().load(std::sync::atomic::Ordering::Relaxed) { return Err(("internal-mapping-changed".into(), "the MCR mapping at xFFFE was removed before reset but a store to xFFFE sets the MCR again".into())); }
     }
+    // ---- a register mapped at an address that a device also owns is a mapping like any other
+    if w.over_mapped { let v = w.sim.read_mem(0xFE20, MemAccessCtx::omnipotent()).map(|x| x.get()).unwrap_or(0); if v != w.sim.pc { return Err(("internal-mapping-lost".into(), format!("the PC register was mapped at xFE20 (also a device port) before reset; reading xFE20 now gives x{v:04X}, PC is x{:04X}", w.sim.pc))); } }
     // ---- mappings and devices still answer
     if pc_mapped { let v = w.sim.read_mem(0xFE32, MemAccessCtx::omnipotent()).map(|x| x.get()).unwrap_or(0); if v != w.sim.pc { return Err(("internal-mapping-lost".into(), format!("PC mapping at xFE32 answers x{v:04X}, PC is x{:04X}", w.sim.pc))); } }
     if w.rec_attached && format!("{:?}", w.sim.device_handler).contains("Custom") {
@@ -134,7 +137,7 @@ fn fingerprint(w: &mut World) -> u64 {
     for a in [0x3000u16, 0x3005, 0x300B, 0x300C, 0x300D, 0x3FFF, 0x5000, 0x0200, 0x2FFF, 0x2FFE, 0x2FFD] { h = mix(h, w.sim.mem[a].get() as u64 | (w.sim.mem[a].is_init() as u64) << 16); }
     if let Some(kb) = &w.kb { h = mix(h, kb.get_buffer().read().unwrap_or_else(|e| e.into_inner()).len() as u64 + 77); }
     // reference-side state
-    mix(h, (w.rec_attached as u64) | (w.pc_mapped as u64) << 1 | (w.psr_mapped as u64) << 2 | (w.mcr_mapped as u64) << 3)
+    mix(h, (w.rec_attached as u64) | (w.pc_mapped as u64) << 1 | (w.psr_mapped as u64) << 2 | (w.mcr_mapped as u64) << 3 | (w.over_mapped as u64) << 4)
 }
 fn visit_with(h: &[u16], init: MachineInitStrategy) -> Visit {
     let r = catch(|| {
@@ -151,7 +154,7 @@ fn visit_with(h: &[u16], init: MachineInitStrategy) -> Visit {
 fn case_of(h: &[u16]) -> String { h.iter().map(|x| x.to_string()).collect::<Vec<_>>().join(",") }
 
 pub fn run(ctx: &Ctx) -> Report {
-    let mut rep = Report::new("explicit-state BFS over histories of 25 operations (300 nested calls left live; switch machine_init between two deterministic strategies; load a program with calls, traps and I/O; step_in; run_with_limit(3); toggle strict / real traps / ignore privilege / debug frames; insert/remove PC and register breakpoints; add/remove a recording device; replace keyboard and display; map/unmap the PC register; unmap the default PSR and MCR mappings; host writes to a register, memory (user and OS), PSR and saved SP; type a key; reset) with reset() appended after EVERY prefix: all of 64K non-I/O memory, registers, PC, PSR, saved SP, frame depth/frames presence, instruction count and pause status must equal Simulator::new(same flags); flags, breakpoint set, MCR handle (Arc::ptr_eq), device handler (derived Debug), internal mappings and device dispatch must be kept. Known{x1357} (complete BFS) and Seeded{99} (same histories). non-trivial = states at depth >= 1");
+    let mut rep = Report::new("explicit-state BFS over histories of 26 operations (map the PC register at the address that is also the recording device's port; 300 nested calls left live; switch machine_init between two deterministic strategies; load a program with calls, traps and I/O; step_in; run_with_limit(3); toggle strict / real traps / ignore privilege / debug frames; insert/remove PC and register breakpoints; add/remove a recording device; replace keyboard and display; map/unmap the PC register; unmap the default PSR and MCR mappings; host writes to a register, memory (user and OS), PSR and saved SP; type a key; reset) with reset() appended after EVERY prefix: all of 64K non-I/O memory, registers, PC, PSR, saved SP, frame depth/frames presence, instruction count and pause status must equal Simulator::new(same flags); flags, breakpoint set, MCR handle (Arc::ptr_eq), device handler (derived Debug), internal mappings and device dispatch must be kept. Known{x1357} (complete BFS) and Seeded{99} (same histories). non-trivial = states at depth >= 1");
     let depth = ctx.pick(4usize, 7usize);
     let known = MachineInitStrategy::Known { value: 0x1357 };
     let (states, transitions, frontier, per_depth, capped) = bfs_hist(ctx, &mut rep.acc, OPS.len(), depth, &|h| format!("k:{}", case_of(h)), |h| visit_with(h, known));
